@@ -20,7 +20,13 @@ open Kskm Kskm.ReadBack Kskm.C07
 
 /-! ### validation is about sets -/
 
-theorem nodup_of_ids {l : List Key} (h : (l.map (·.keyIdentifier)).Nodup) : l.Nodup := List.Nodup.of_map _ h
+theorem nodup_of_ids {l : List Key} (h : (l.map (·.keyIdentifier)).Nodup) : l.Nodup := by
+  induction l with
+  | nil => exact List.nodup_nil
+  | cons a t ih =>
+    rw [List.map_cons, List.nodup_cons] at h
+    rw [List.nodup_cons]
+    exact ⟨fun hm => h.1 (List.mem_map_of_mem hm), ih h.2⟩
 
 theorem dedup_ne_nil {α} [DecidableEq α] {l : List α} (h : l ≠ []) : Xml.dedup l ≠ [] := by
   cases l with
@@ -56,10 +62,10 @@ theorem checkValidSignatures_ok_iff (verify : Verifier) (b : Bundle) (pol : Resp
   unfold checkValidSignatures
   cases hf : pol.validateSignatures
   · simp [pure, Except.pure]
-  · simp only [Bool.not_true, Bool.false_eq_true, ↓reduceIte, false_or]
+  · simp only [Bool.not_true, Bool.false_eq_true, ↓reduceIte]
     split
     · rename_i he; simp [he, violation]
-    · rename_i e he _; simp [he]
+    · rename_i e _ he; simp [he]
     · rename_i he; simp [he, pure, Except.pure]
 
 theorem checkValidSignatures_readBack (verify : Verifier) (b : Bundle) (pol : ResponsePolicy)
@@ -75,7 +81,7 @@ theorem validateResponse_ok_iff (verify : Verifier) (r : Response) (pol : Respon
       (r.bundles.length : Int) = pol.numBundles ∧ ∀ b ∈ r.bundles, checkValidSignatures verify b pol = .ok () := by
   unfold validateResponse
   by_cases hc : (r.bundles.length : Int) = pol.numBundles
-  · simp [hc, bind, Except.bind, pure, Except.pure, forEach_ok_iff]
+  · simp [hc, forEach_ok_iff]
   · simp [hc, bind, Except.bind, violation]
 
 /-- **`validate_response` passes on what the reader returns** whenever it passed on the written response
